@@ -1,5 +1,6 @@
 """C02 Frame codec round-trip, canonical bytes, backend independence."""
 import ast
+import re
 
 from .. import AnalysisError
 from .. import tables
@@ -1071,5 +1072,63 @@ def rule_signedness(ctx):
     rs(ctx)
 
 
+
+def rule_byte_order(ctx):
+    """C02.i  Every multi-byte field is packed and unpacked big-endian, explicitly: each struct format in the library
+    (struct.pack / unpack / pack_into / unpack_from / iter_unpack / calcsize / struct.Struct) that contains a field
+    wider than one byte starts with '>' or '!'.  A format without a prefix is native byte order and native alignment:
+    on a little-endian host the bytes are reversed, and only on the code path that uses it - the fallback backend, one
+    frame type - so a round trip through the same backend still passes."""
+    rep = ctx.report
+    n = 0
+    bad = []
+    for f in ctx.repo.all_functions():
+        if not f.module.name.startswith('rsocket.') or f.module.name.startswith('rsocket.cli'):
+            continue
+        for x in walk_local(f.node):
+            if isinstance(x, ast.Call) and isinstance(x.func, ast.Attribute) and isinstance(x.func.value, ast.Name) and \
+                    x.func.value.id == 'struct' and x.args and isinstance(x.args[0], ast.Constant) and \
+                    isinstance(x.args[0].value, str):
+                n += 1
+                _check_format(x.args[0].value, f, x, bad)
+    # module-level struct.Struct(...) objects
+    for m in ctx.repo.modules.values():
+        if not m.name.startswith('rsocket.') or m.name.startswith('rsocket.cli'):
+            continue
+        for x in ast.walk(m.tree):
+            if isinstance(x, ast.Call) and isinstance(x.func, ast.Attribute) and x.func.attr == 'Struct' and \
+                    isinstance(x.func.value, ast.Name) and x.func.value.id == 'struct' and x.args and \
+                    isinstance(x.args[0], ast.Constant) and isinstance(x.args[0].value, str):
+                n += 1
+                _check_format(x.args[0].value, m, x, bad)
+    rep.require('C02.i', 'struct formats in the library', n, 25)
+    for where, node, fmt, why in bad:
+        rep.bad('C02.i', '%s / struct format %r' % (getattr(where, 'qualname', getattr(where, 'name', '?')).split(':')[-1],
+                                                   fmt),
+                where if hasattr(where, 'node') else (where.relpath, node.lineno), why)
+    if not bad:
+        rep.ok('C02.i', 'struct formats / multi-byte fields are explicitly big-endian',
+               ctx.repo.func('rsocket.frame:parse_or_ignore'), '%d formats' % n)
+
+
+def _check_format(fmt, where, node, bad):
+    import struct as _struct
+    body = fmt[1:] if fmt[:1] in '<>!=@' else fmt
+    wide = False
+    for cnt, ch in re.findall(r'(\d*)([a-zA-Z?])', body):
+        if ch in 'sp':
+            continue
+        try:
+            if _struct.calcsize('>' + ch) > 1:
+                wide = True
+        except _struct.error:
+            pass
+    if wide and fmt[:1] not in ('>', '!'):
+        bad.append((where, node, fmt,
+                    'a field wider than one byte is packed with %s byte order: on a little-endian host its bytes are '
+                    'reversed on the wire' % ('little-endian' if fmt[:1] == '<' else 'native')))
+
+
+
 RULES = [('C02.a', rule_a), ('C02.b', rule_b), ('C02.b', rule_b2), ('C02.c', rule_c), ('C02.d', rule_d), ('C02.e', rule_e),
-         ('C02.f', rule_f), ('C02.g', rule_g), ('C02.e', rule_tcp_writer), ('C02.h', rule_decoder_entry), ('C18.l', rule_signedness)]
+         ('C02.f', rule_f), ('C02.g', rule_g), ('C02.e', rule_tcp_writer), ('C02.h', rule_decoder_entry), ('C18.l', rule_signedness), ('C02.i', rule_byte_order)]
